@@ -21,7 +21,8 @@ NewClient(lg, v111, http) ==
      pend |-> <<>>, nsub |-> <<>>, per |-> <<>>, grant |-> <<>>,
      tok |-> "nil", tokq |-> <<>>, dispW |-> <<>>, unsent |-> {},
      recheck |-> <<>>, owed |-> <<>>, stale |-> {}, intok |-> 0, trigc |-> <<>>,
-     gotByGet |-> <<>>, taintG |-> FALSE, taintU |-> FALSE, dropped |-> <<>>, hUnsub |-> {}]
+     gotByGet |-> <<>>, taintG |-> FALSE, taintU |-> FALSE, taintW |-> FALSE, dropped |-> <<>>, hUnsub |-> {},
+     lastTokT |-> 0, lastAcc |-> <<>>]
 
 InitO(tr) ==
     [tr |-> tr, conns |-> <<>>, ann |-> <<>>, norm |-> <<>>, keyn |-> <<>>,
@@ -70,13 +71,22 @@ ByDrop(cl, d, reqL) == \A x \in d : Get(cl.dropped, x, 0) > reqL
 KfOf(cl, d, reqL) ==
     IF cl.taintU THEN "KF-U"
     ELSE IF cl.taintG \/ (d # {} /\ ByGet(cl, d, reqL)) THEN "KF-G"
-    ELSE IF d # {} /\ ByDrop(cl, d, reqL) THEN "KF-W"
+    ELSE IF cl.taintW \/ (d # {} /\ ByDrop(cl, d, reqL)) THEN "KF-W"
     ELSE ""
 
 DanglingViol(cl, res2, direct2, what, reqL) ==
     LET d == Dangling(res2, direct2)
     IN IF d = {} THEN {}
        ELSE {V("C02", what \o ": dangling reference, no data for " \o ToString(d), KfOf(cl, d, reqL))}
+
+(* line of the oldest outstanding subscribe-like request of the connection (l if none) *)
+MinPendL(cl) ==
+    LET ls == {cl.pend[i].l : i \in {j \in DOMAIN cl.pend : cl.pend[j].m \in {"subscribe", "get", "new", "call", "auth"}}}
+    IN IF ls = {} THEN l ELSE CHOOSE x \in ls : \A y \in ls : x <= y
+
+TaintW(cl, res2, direct2, reqL) ==
+    LET d == Dangling(res2, direct2)
+    IN cl.taintW \/ (d # {} /\ ~cl.taintU /\ ~cl.taintG /\ ~ByGet(cl, d, reqL) /\ ByDrop(cl, d, reqL))
 
 TaintG(cl, res2, direct2, reqL) ==
     LET d == Dangling(res2, direct2)
@@ -87,9 +97,6 @@ TaintG(cl, res2, direct2, reqL) ==
 (* l = line it was handed over, inv = line at which a trigger that reached   *)
 (* the gateway after l was processed by the connection (0 = still valid),    *)
 (* dis = line at which the subscription it belonged to was disposed.         *)
-NoGrant == [get |-> FALSE, call |-> "", calllist |-> <<>>, ok |-> FALSE, l |-> 0, tok |-> "", inv |-> 0, dis |-> 0, none |-> TRUE]
-GrantOf(cl, k) == Get(cl.grant, k, NoGrant)
-
 (* "ok": usable; "kf": the request was outstanding when the trigger was       *)
 (* processed (finding KF-R: the verdict is checked once, at request time);    *)
 (* "bad": no usable verdict.                                                  *)
@@ -100,10 +107,25 @@ GrantState(g, reqL, allowed) ==
     ELSE IF g.inv > 0 THEN (IF reqL < g.inv THEN "kf" ELSE "bad")
     ELSE "ok"
 
+NoGrant == [get |-> FALSE, call |-> "", calllist |-> <<>>, ok |-> FALSE, l |-> 0, rl |-> 0, tok |-> "", inv |-> 0, dis |-> 0, none |-> TRUE]
+GrantsOf(cl, k) == Get(cl.grant, k, <<>>)
+GrantOf(cl, k) == IF GrantsOf(cl, k) = <<>> THEN NoGrant ELSE GrantsOf(cl, k)[Len(GrantsOf(cl, k))]
+
+(* The answers that may back a decision for a client request sent at reqL:   *)
+(* the latest answer, and every answer whose access request was issued after *)
+(* the client request (two requests on a resource the connection is not      *)
+(* subscribed to each ask on their own).                                     *)
+Verdict(cl, k, reqL, Allowed(_)) ==
+    LET gs == GrantsOf(cl, k)
+        cand == {i \in DOMAIN gs : i = Len(gs) \/ gs[i].rl > reqL}
+        sts == {GrantState(gs[i], reqL, Allowed(gs[i])) : i \in cand}
+    IN IF "ok" \in sts THEN "ok" ELSE IF "kf" \in sts THEN "kf" ELSE "bad"
+
 (* C04: a response that hands rid to c as a root needs a valid get grant.  *)
+GetAllowed(g) == g.get
 GrantViol(cl, rid, reqL, what) ==
     LET g == GrantOf(cl, KeyOf(cl, rid))
-        st == GrantState(g, reqL, g.get)
+        st == Verdict(cl, KeyOf(cl, rid), reqL, GetAllowed)
     IN IF st = "ok" THEN {}
        ELSE {V("C04", what \o " for " \o rid \o " without a valid get grant " \o ToString(g), IF st = "kf" THEN "KF-R" ELSE "")}
 
@@ -147,7 +169,8 @@ H_cres(r) ==
     CASE req.m \in {"subscribe"} /\ r.ok ->
             LET d2 == Put(cl1.direct, req.rid, dirOf(req.rid) + 1)
                 cl2 == [Collect(cl1, res1, d2) EXCEPT !.nsub = Put(cl1.nsub, req.rid, nsubOf(req.rid) + 1),
-                                                      !.taintG = TaintG(cl1, res1, d2, req.l)]
+                                                      !.taintG = TaintG(cl1, res1, d2, req.l),
+                                                      !.taintW = TaintW(cl1, res1, d2, req.l)]
             IN Res(SetConn(o, r.c, cl2),
                    leakV \cup shapeV \cup DanglingViol(cl1, res1, d2, "subscribe response", req.l) \cup GrantViol(cl1, req.rid, req.l, "subscribe data"))
       [] req.m = "get" /\ r.ok ->
@@ -155,7 +178,8 @@ H_cres(r) ==
                 miss == {x \in getH : x \notin DOMAIN res1}
                 kfm == KfOf(cl1, miss, req.l)
                 cl2 == [Collect(cl1, res1, cl1.direct) EXCEPT !.gotByGet = [x \in DOMAIN SetRes(r.set) |-> l] @@ @,
-                                                              !.taintG = @ \/ (miss # {} /\ kfm = "KF-G")]
+                                                              !.taintG = @ \/ (miss # {} /\ kfm = "KF-G"),
+                                                              !.taintW = @ \/ (miss # {} /\ kfm = "KF-W")]
             IN Res(SetConn(o, r.c, cl2),
                    leakV \cup shapeV \cup GrantViol(cl1, req.rid, req.l, "get data")
                    \cup (IF miss = {} THEN {} ELSE {V("C02", "get response leaves references without data: " \o ToString(miss), kfm)}))
@@ -184,7 +208,8 @@ H_cres(r) ==
                 noSub == (cl1.v111 /\ req.m \in {"call", "auth"}) \/ (r.rrid \in DOMAIN r.set.errors /\ ~(gr.ok /\ gr.get))
                 d2 == IF noSub THEN cl1.direct ELSE Put(cl1.direct, r.rrid, dirOf(r.rrid) + 1)
                 cl2 == [Collect(cl1, res1, d2) EXCEPT !.nsub = IF noSub THEN cl1.nsub ELSE Put(cl1.nsub, r.rrid, nsubOf(r.rrid) + 1),
-                                                      !.taintG = TaintG(cl1, res1, d2, req.l)]
+                                                      !.taintG = TaintG(cl1, res1, d2, req.l),
+                                                      !.taintW = TaintW(cl1, res1, d2, req.l)]
             IN Res(SetConn(o, r.c, cl2),
                    leakV \cup shapeV \cup DanglingViol(cl1, res1, d2, "resource response", req.l)
                    \cup (IF noSub THEN {} ELSE GrantViol(cl1, r.rrid, req.l, "resource response data")))
@@ -206,11 +231,11 @@ SeqViol(cl, r) ==
              ELSE {})
             \cup
             (IF p.last > 0 /\ r.seq > p.last /\ Between(n, p.last, r.seq) # {}
-             THEN {V("C03", "gap on " \o r.rid \o ": events " \o ToString({h.seq : h \in Between(n, p.last, r.seq)}) \o " skipped", IF cl.taintU THEN "KF-U" ELSE IF cl.taintG THEN "KF-G" ELSE "")}
+             THEN {V("C03", "gap on " \o r.rid \o ": events " \o ToString({h.seq : h \in Between(n, p.last, r.seq)}) \o " skipped", IF cl.taintU THEN "KF-U" ELSE IF cl.taintG THEN "KF-G" ELSE IF cl.taintW THEN "KF-W" ELSE "")}
              ELSE {})
             \cup
             (IF p.last = 0 /\ {h \in Between(n, 0, r.seq) : h.l > p.start} # {}
-             THEN {V("C03", "gap on " \o r.rid \o ": events handed over after the hand-off were skipped before seq " \o ToString(r.seq), IF cl.taintU THEN "KF-U" ELSE IF cl.taintG THEN "KF-G" ELSE "")}
+             THEN {V("C03", "gap on " \o r.rid \o ": events handed over after the hand-off were skipped before seq " \o ToString(r.seq), IF cl.taintU THEN "KF-U" ELSE IF cl.taintG THEN "KF-G" ELSE IF cl.taintW THEN "KF-W" ELSE "")}
              ELSE {})
 
 SeqUpdate(cl, r) ==
@@ -233,7 +258,7 @@ H_cev(r) ==
         H == Held(cl1.direct, cl1.res)
         kfU == IF cl1.taintU THEN "KF-U"
                ELSE IF cl1.taintG \/ r.rid \in DOMAIN cl1.gotByGet THEN "KF-G"
-               ELSE IF \E i \in DOMAIN cl1.pend : cl1.pend[i].rid = r.rid /\ cl1.pend[i].l < Get(cl1.dropped, r.rid, 0) THEN "KF-W"
+               ELSE IF cl1.taintW \/ \E i \in DOMAIN cl1.pend : cl1.pend[i].m \in {"subscribe", "get", "new", "call", "auth"} /\ cl1.pend[i].l < Get(cl1.dropped, r.rid, 0) THEN "KF-W"
                ELSE ""
         strayV == IF r.rid \in H \/ r.ev = "unsubscribe" THEN {}
                   ELSE {V("C02", r.ev \o " event for " \o r.rid \o " which the client does not hold", kfU)}
@@ -247,15 +272,15 @@ H_cev(r) ==
             THEN Res(SetConn(o, r.c, cl1s), leakV \cup strayV \cup seqV \cup
                      (IF r.rid \in H THEN {V("C02", "change event on " \o r.rid \o " which is not a model at the client", kfU)} ELSE {}))
             ELSE LET res2 == Put(res1, r.rid, ApplyChange(cur, r.vals))
-                     cl2 == Collect(cl1s, res2, cl1.direct)
-                 IN Res(SetConn(o, r.c, cl2), leakV \cup strayV \cup seqV \cup DanglingViol(cl1, res2, cl1.direct, "change event", l))
+                     cl2 == [Collect(cl1s, res2, cl1.direct) EXCEPT !.taintW = TaintW(cl1, res2, cl1.direct, MinPendL(cl1))]
+                 IN Res(SetConn(o, r.c, cl2), leakV \cup strayV \cup seqV \cup DanglingViol(cl1, res2, cl1.direct, "change event", MinPendL(cl1)))
       [] r.ev = "add" ->
             IF ~AddOK(cur, r.idx)
             THEN Res(SetConn(o, r.c, cl1s), leakV \cup strayV \cup seqV \cup
                      (IF r.rid \in H THEN {V("C02", "add event on " \o r.rid \o " inapplicable at the client (kind or index " \o ToString(r.idx) \o ")", kfU)} ELSE {}))
             ELSE LET res2 == Put(res1, r.rid, ApplyAdd(cur, r.idx, r.val))
-                     cl2 == Collect(cl1s, res2, cl1.direct)
-                 IN Res(SetConn(o, r.c, cl2), leakV \cup strayV \cup seqV \cup DanglingViol(cl1, res2, cl1.direct, "add event", l))
+                     cl2 == [Collect(cl1s, res2, cl1.direct) EXCEPT !.taintW = TaintW(cl1, res2, cl1.direct, MinPendL(cl1))]
+                 IN Res(SetConn(o, r.c, cl2), leakV \cup strayV \cup seqV \cup DanglingViol(cl1, res2, cl1.direct, "add event", MinPendL(cl1)))
       [] r.ev = "remove" ->
             IF ~RemoveOK(cur, r.idx)
             THEN Res(SetConn(o, r.c, cl1s), leakV \cup strayV \cup seqV \cup
@@ -272,7 +297,8 @@ H_cev(r) ==
                 owedV == IF r.rid \in DOMAIN cl1.owed /\ cl1.owed[r.rid] # r.reason /\ r.reason # "system.deleted"
                          THEN {V("C06", "unsubscribe event on " \o r.rid \o " carries reason " \o r.reason \o ", expected " \o cl1.owed[r.rid], "")}
                          ELSE {}
-                cl2 == [Collect(cl1s, res1, d2) EXCEPT !.nsub = Put(cl1.nsub, r.rid, 0), !.owed = Del(cl1.owed, r.rid)]
+                cl2 == [Collect(cl1s, res1, d2) EXCEPT !.nsub = Put(cl1.nsub, r.rid, 0), !.owed = Del(cl1.owed, r.rid),
+                                                       !.hUnsub = IF PendingTakers(cl1, r.rid, -1) # {} THEN @ \cup {r.rid} ELSE @]
                 cl3 == [cl2 EXCEPT !.per = IF r.rid \in DOMAIN @ THEN Put(@, r.rid, [@[r.rid] EXCEPT !.start = l, !.last = 0]) ELSE @]
             IN Res(SetConn(o, r.c, cl3),
                    leakV \cup owedV \cup (IF Get(cl1.direct, r.rid, 0) > 0 \/ PendingTakers(cl1, r.rid, -1) # {} THEN {}
@@ -282,7 +308,9 @@ H_cev(r) ==
 
 -----------------------------------------------------------------------------
 InvalidateBefore(grant, keys, T) ==
-    [k \in DOMAIN grant |-> IF k \in keys /\ grant[k].l < T /\ grant[k].inv = 0 THEN [grant[k] EXCEPT !.inv = l] ELSE grant[k]]
+    [k \in DOMAIN grant |-> IF k \in keys
+                            THEN [i \in DOMAIN grant[k] |-> IF grant[k][i].l < T /\ grant[k][i].inv = 0 THEN [grant[k][i] EXCEPT !.inv = l] ELSE grant[k][i]]
+                            ELSE grant[k]]
 
 (* handover line of the trigger a reaccess note is attributed to: inside the  *)
 (* token fan-out loop it is that token event; otherwise the oldest trigger    *)
@@ -303,7 +331,7 @@ H_note(r) ==
                 k == KeyOf(cl, r.rid)
             IN Res(SetConn(o, r.c, [cl EXCEPT !.dispW = IF w THEN Put(@, r.rid, l) ELSE @,
                                               !.unsent = @ \ {r.rid},
-                                              !.grant = IF k \in DOMAIN @ THEN Put(@, k, [@[k] EXCEPT !.dis = l]) ELSE @,
+                                              !.grant = IF k \in DOMAIN @ THEN Put(@, k, [i \in DOMAIN @[k] |-> IF @[k][i].dis = 0 THEN [@[k][i] EXCEPT !.dis = l] ELSE @[k][i]]) ELSE @,
                                               !.recheck = Del(@, r.rid),
                                               !.trigc = Del(@, r.rid)]), {})
       [] r.kind \in {"reaccess", "reaccessDeferred"} /\ r.c \in DOMAIN o.conns ->
@@ -311,7 +339,12 @@ H_note(r) ==
                 k == KeyOf(cl, r.rid)
                 T == TrigLine(cl, r.rid)
                 g2 == InvalidateBefore(cl.grant, {k}, T)
-                rc2 == IF r.kind = "reaccess" /\ r.direct > 0 THEN Put(cl.recheck, r.rid, [l |-> T, k |-> 0]) ELSE cl.recheck
+                \* access requests of this connection for this key that are still unanswered
+                pendAcc == {x \in DOMAIN o.mqpend : o.mqpend[x].t = "access" /\ o.mqpend[x].c = r.c /\ o.mqpend[x].key = k}
+                fresh == {x \in pendAcc : o.mqpend[x].l > T}
+                k0 == IF fresh # {} THEN CHOOSE x \in fresh : TRUE ELSE 0
+                old == IF pendAcc \ fresh # {} THEN CHOOSE x \in pendAcc \ fresh : TRUE ELSE 0
+                rc2 == IF r.kind = "reaccess" /\ r.direct > 0 THEN Put(cl.recheck, r.rid, [l |-> T, k |-> k0, old |-> old]) ELSE cl.recheck
             IN Res(SetConn(o, r.c, [cl EXCEPT !.grant = g2, !.recheck = rc2,
                                               !.trigc = IF cl.intok > 0 THEN @ ELSE Put(@, r.rid, T)]), {})
       [] r.kind = "token" /\ r.c \in DOMAIN o.conns ->
@@ -320,7 +353,8 @@ H_note(r) ==
                ELSE LET T == Head(cl.tokq).l
                         g2 == IF r.had THEN InvalidateBefore(cl.grant, DOMAIN cl.grant, T) ELSE cl.grant
                     IN Res(SetConn(o, r.c, [cl EXCEPT !.tok = Head(cl.tokq).tok, !.tokq = Tail(cl.tokq), !.grant = g2,
-                                                       !.intok = IF r.had THEN T ELSE 0]), {})
+                                                       !.intok = IF r.had THEN T ELSE 0,
+                                                       !.lastTokT = IF r.had THEN T ELSE @]), {})
       [] r.kind = "tokenDone" /\ r.c \in DOMAIN o.conns ->
             Res(SetConn(o, r.c, [o.conns[r.c] EXCEPT !.intok = 0]), {})
       [] r.kind = "resetres" ->
@@ -361,8 +395,8 @@ H_mreq(r) ==
                           g == GrantOf(cl, r.key)
                           cands == {i \in DOMAIN cl.pend : cl.pend[i].key = r.key /\
                                       ((cl.pend[i].m = "new" /\ r.meth = "new") \/ (cl.pend[i].m = "call" /\ cl.pend[i].action = r.meth))}
-                          allowed == CallAllowed(g.call, g.calllist, r.meth)
-                          sts == IF cands = {} THEN {GrantState(g, l, allowed)} ELSE {GrantState(g, cl.pend[i].l, allowed) : i \in cands}
+                          CallOK(x) == CallAllowed(x.call, x.calllist, r.meth)
+                          sts == IF cands = {} THEN {Verdict(cl, r.key, l, CallOK)} ELSE {Verdict(cl, r.key, cl.pend[i].l, CallOK) : i \in cands}
                       IN IF "ok" \in sts THEN {}
                          ELSE {V("C05", "call " \o r.subj \o " forwarded without a valid grant for the method: " \o ToString(g), IF "kf" \in sts THEN "KF-R" ELSE "")}
                  ELSE {}
@@ -374,7 +408,8 @@ H_mreq(r) ==
               THEN LET cl == o.conns[r.c]
                        rc2 == [rid \in DOMAIN cl.recheck |->
                                   IF KeyOf(cl, rid) = r.key /\ cl.recheck[rid].k = 0 THEN [cl.recheck[rid] EXCEPT !.k = r.k] ELSE cl.recheck[rid]]
-                   IN SetConn(o1, r.c, [cl EXCEPT !.recheck = rc2])
+                       rechk == \E rid \in DOMAIN cl.recheck : KeyOf(cl, rid) = r.key /\ cl.recheck[rid].k = 0
+                   IN SetConn(o1, r.c, [cl EXCEPT !.recheck = rc2, !.lastAcc = Put(@, r.key, [l |-> l, rechk |-> rechk])])
               ELSE o1
     IN Res(o2, badV \cup cidV \cup goneV \cup tokV \cup subV \cup callV)
 
@@ -413,13 +448,15 @@ H_mres(r) ==
          [] r.t = "access" /\ r.c \in DOMAIN o.conns ->
               LET cl == o.conns[r.c]
                   ok == r.kind = "access"
-                  g == [get |-> r.get, call |-> r.call, calllist |-> r.calllist, ok |-> ok, l |-> l, tok |-> req.tok, inv |-> 0, dis |-> 0, none |-> FALSE]
+                  g == [get |-> r.get, call |-> r.call, calllist |-> r.calllist, ok |-> ok, l |-> l, rl |-> req.l, tok |-> req.tok, inv |-> 0, dis |-> 0, none |-> FALSE]
                   hit == {rid \in DOMAIN cl.recheck : cl.recheck[rid].k = r.k}
+                  hitOld == {rid \in DOMAIN cl.recheck : cl.recheck[rid].k = 0 /\ cl.recheck[rid].old = r.k}
                   code == IF ok THEN "system.accessDenied" ELSE r.code
                   owed2 == IF ok /\ r.get THEN cl.owed
                            ELSE [rid \in hit |-> code] @@ cl.owed
-              IN Res(SetConn(o1, r.c, [cl EXCEPT !.grant = Put(cl.grant, r.key, g),
-                                                 !.recheck = [rid \in DOMAIN cl.recheck \ hit |-> cl.recheck[rid]],
+              IN Res(SetConn(o1, r.c, [cl EXCEPT !.grant = Put(cl.grant, r.key, Append(GrantsOf(cl, r.key), g)),
+                                                 !.recheck = [rid \in DOMAIN cl.recheck \ hit |->
+                                                                 IF rid \in hitOld THEN [cl.recheck[rid] EXCEPT !.l = 1000000000] ELSE cl.recheck[rid]],
                                                  !.owed = owed2]), {})
          [] OTHER -> Res(o1, {})
 
@@ -455,7 +492,7 @@ C01Viol(c, q) ==
             k == KeyOf(cl, rid)
             nk == Get(o.norm, k, k)
             a == AnnOf(o.ann, nk)
-            kf == IF cl.taintU THEN "KF-U" ELSE IF cl.taintG THEN "KF-G" ELSE ""
+            kf == IF cl.taintU THEN "KF-U" ELSE IF cl.taintG THEN "KF-G" ELSE IF cl.taintW THEN "KF-W" ELSE ""
         IN IF e.k \notin {"m", "c"} \/ rid \in cl.exempt THEN {}
            ELSE IF a.st = "del" THEN {}
            ELSE IF a.st = "un" THEN {V("C01", "client " \o c \o " holds " \o rid \o " but the gateway no longer tracks it (no subscription / never announced)", kf)}
@@ -492,17 +529,29 @@ C03EndViol(c) ==
             lo == IF p.last > 0 THEN p.last ELSE 0
             missing == {h.seq : h \in {x \in after : x.seq > lo}}
         IN IF QueryOf(cl, rid) # "" \/ rid \in cl.exempt \/ cl.res[rid].k = "e" \/ missing = {} THEN {}
-           ELSE {V("C03", "client " \o c \o " holds " \o rid \o " but never received events " \o ToString(missing), IF cl.taintU THEN "KF-U" ELSE IF cl.taintG THEN "KF-G" ELSE "")}
+           ELSE {V("C03", "client " \o c \o " holds " \o rid \o " but never received events " \o ToString(missing), IF cl.taintU THEN "KF-U" ELSE IF cl.taintG THEN "KF-G" ELSE IF cl.taintW THEN "KF-W" ELSE "")}
         : rid \in H \cap DOMAIN cl.per \cap DOMAIN cl.res }
 
 C06EndViol(c, q) ==
     LET cl == o.conns[c]
         snap == Get(q.subs, c, <<>>)
-    IN { V("C06", "re-check for " \o rid \o " on " \o c \o " never asked the service", "")
+    IN { V("C06", "re-check for " \o rid \o " on " \o c \o " did not ask the service again after the trigger"
+                  \o (IF cl.recheck[rid].old > 0 THEN " (served by an access request sent before it)" ELSE ""),
+           IF cl.recheck[rid].old > 0 THEN "KF-R" ELSE "")
          : rid \in {x \in DOMAIN cl.recheck : cl.recheck[x].k = 0 /\ x \in DOMAIN snap /\ snap[x].direct > 0} }
        \cup
        { V("C06", "access for " \o rid \o " on " \o c \o " was refused (" \o cl.owed[rid] \o ") but no unsubscribe event was sent / direct subscription remains", "")
          : rid \in {x \in DOMAIN cl.owed : x \in DOMAIN snap /\ snap[x].direct > 0} }
+
+(* after a token change on a connection that had a token, every directly    *)
+(* subscribed resource must have been re-checked by a request sent after it  *)
+C06TokViol(c, q) ==
+    LET cl == o.conns[c]
+        snap == Get(q.subs, c, <<>>)
+    IN IF cl.lastTokT = 0 THEN {}
+       ELSE { V("C06", "direct subscription " \o rid \o " of " \o c \o " was not re-checked by an access request sent after the connection's last token change",
+                IF KeyOf(cl, rid) \in DOMAIN cl.lastAcc /\ ~cl.lastAcc[KeyOf(cl, rid)].rechk THEN "KF-R" ELSE "")
+              : rid \in {x \in DOMAIN snap : snap[x].direct > 0 /\ Get(cl.lastAcc, KeyOf(cl, x), [l |-> 0]).l < cl.lastTokT} }
 
 C09QViol(q) ==
     UNION { IF q.cache[n].count = q.cache[n].subs THEN {}
@@ -521,7 +570,7 @@ H_quiescent(r) ==
     LET live == {c \in DOMAIN o.conns : o.conns[c].alive /\ c \in SeqToSet(r.conns)}
         o1 == [o EXCEPT !.conns = [c \in DOMAIN o.conns |-> [o.conns[c] EXCEPT !.rn = r.rn @@ @]]]
     IN Res(o1,
-           UNION {C01Viol(c, r) \cup C07Viol(c) \cup C08Viol(c, r) \cup C03EndViol(c) \cup C06EndViol(c, r) : c \in live}
+           UNION {C01Viol(c, r) \cup C07Viol(c) \cup C08Viol(c, r) \cup C03EndViol(c) \cup C06EndViol(c, r) \cup C06TokViol(c, r) : c \in live}
            \cup C09QViol(r) \cup C11Viol(r))
 
 H_final(r) ==
